@@ -26,6 +26,8 @@ CLAIMED = {
    text="TLC enumerates every item list within bounds for String/Ident/Path keys and checks the loop machine against the declarative reading (succeeds iff all named, keys pairwise distinct after conversion, all values convert; one entry per item; otherwise one leaf per literal, repeat, bad key and bad value under its key); each list is executed on the real HashMap/BTreeMap conversions and hash vs ordered compared."),
  "C07": dict(engine="Receiver", design_ref="4.6, 5/C07", technique="TLA+ spec (Receiver.tla) with every expect()/unreachable!() of the generated parser as a modelled panic transition whose unreachability TLC checks (NoPanic); all behaviours, incl. hostile inputs, replayed on the real parsers under catch_unwind",
    text="Every expect of the generated code is a transition to a panic flag in the receiver machine and TLC checks it is unreachable for every declaration and input in bounds (the presence check plus the single early return make it so); the same behaviours - including bodies that are not meta syntax at any depth, bare and name-value attributes, flags in every form, receivers with nothing to forward - are executed by the real parsers with panics caught and reported. Unions / shapes and oversized integers are covered by the Shapes and Targets machines as they are added."),
+ "C17": dict(engine="Receiver", design_ref="4.6, 5/C17", technique="TLA+ spec (Receiver.tla: did_you_mean / add_alts / add_sibling_alts transcribed; ReceiverProps.tla: eligible names per position) model-checked with TLC over a similarity table computed with strsim; replayed on real receivers, suggested names re-submitted; repeated with the feature off",
+   text="TLC checks for every corpus root and every misspelt name at every level that the suggestion the machine attaches is among the best names eligible at that position per the declarative side (never skipped / flatten members, parent names only through direct flatten hand-off, only above threshold) and that no other leaf carries one; the real parser's suggestions are compared with that set, each suggested name is re-submitted and must not be unknown, and the run is repeated without the suggestions feature."),
 }
 
 NOT_YET = "check not built yet (planned, see DESIGN.md section 5)"
